@@ -85,6 +85,20 @@ def run(ctx):
             mm.clone()
         except Exception:
             pass
+    # scale: a MetaModule around a project of more than 256 positions, one with more than 96 stored mappings (saved, loaded, cloned)
+    try:
+        big = api.m.MetaModule()
+        for _ in range(300):
+            big.project.new_module(api.m.Amplifier)
+        fmt.load(api.Synth(big).read())
+        big.clone()
+        wide = api.m.MetaModule()
+        wide.mappings.length = 128
+        while len(wide.mappings.values) < 128:
+            wide.mappings.values.append(type(wide).Mapping((0, 0)))
+        fmt.load(api.Synth(wide).read())
+    except Exception:
+        pass
     reg2 = meta.registry()
     traces.append({"id": "registry-after-use", "events": [{"mtype": k, "meta": v} for k, v in reg2.items()]})
     nfields = 0
